@@ -62,3 +62,31 @@ def in_dok(src: Any, dst: Any, One: Any, basedims=None) -> bool:
 
 def degree(unit: Any, One: Any) -> int:
     return sum(abs(e) for f, e in unit.factors.items() if f is not One)
+
+
+def regroup_class(src: Any, dst: Any, One: Any, sizes: Any) -> List[str]:
+    """K-PLAN-6: some base-unit factor of area/volume/derived dimension has *no* declared
+    decomposition into units of fundamental dimensions (its root vector, solved from the
+    declarations by vf.sizes, still contains a root unit of non-fundamental dimension), and
+    the two sides group the dimension differently (the multisets of factor dimensions
+    differ), so the planner would have to split or merge such a unit."""
+    def undecomposable(f) -> bool:
+        if dimkind(f.dimension.exponents) not in ("power", "multi", "mixed", "neg"):
+            return False
+        vec = sizes.rootvec.get(f)
+        if vec is None:
+            return True
+        return any(dimkind(r.dimension.exponents) not in ("simple", "num") for r in vec)
+
+    def dims(u):
+        out = []
+        for f, e in u.factors.items():
+            if f is One:
+                continue
+            out.extend([tuple(f.dimension.exponents)] * abs(e) if e > 0 else [tuple(-x for x in f.dimension.exponents)] * abs(e))
+        return sorted(out)
+
+    facs = [f for u in (src, dst) for f in u.factors if f is not One]
+    if any(undecomposable(f) for f in facs) and dims(src) != dims(dst):
+        return ["K-PLAN-6"]
+    return []
